@@ -138,7 +138,7 @@ def make_case(rng, sh):
     cfg['exc_flavour'] = {}
     for fid, b in beh.items():
         if b in ('raise_before', 'raise_after', 'raise') and rng.chance(0.4):
-            cfg['exc_flavour'][fid] = 'http'        # the layer raises an HTTPException (an exception *and* a response)
+            cfg['exc_flavour'][fid] = rng.pick(['http', 'http', 'werkzeug'])   # an HTTPException (an exception *and* a response), clastic's or werkzeug's
             sh.hit('raises-http-exception')
     cfg['resp_flavour'] = {}
     for fid, b in beh.items():
